@@ -27,7 +27,7 @@ ASSUMPTIONS = ["Client.encoding is ascii or utf-8 (ASCII-compatible); other code
                "integer arguments are within the protocol's ranges (flags < 2^32, exptime signed 64-bit, delta/cas < 2^64)",
                "mixed bytes/str keys within one dict are covered element-wise (each item independently)"]
 NOT_COVERED = ["raw_command (sends caller bytes by design)", "HashClient multi-key atomicity (excluded by the statement)",
-               "command text of stats/cache_memlimit/version/quit/shutdown (not yet mechanised)",
+               "command text of stats/cache_memlimit (not yet mechanised; version / quit / shutdown are)",
                "uniqueness of the strict parse (lemma strict-parse of DESIGN 4.2 is not mechanised; token classes are proved)",
                "the empty prefixed key: recorded known finding, re-confirmed by witness replay each run"]
 BUDGET = {"quick": 30, "thorough": 120}
@@ -50,6 +50,7 @@ def build(E, tier):
         cm.verify_public_fetch(E)
         cm.verify_public_fetch_many(E)
         cm.verify_set_many(E)
+        cm.verify_public_admin(E)
     cm.verify_delete_many(E)
 
 
